@@ -39,6 +39,10 @@ def _tiny_specs():
                     # tables whose value is again a key are excluded (idempotence unsatisfiable)
                     if any(v in nd for v in nd.values()):
                         continue
+                    # ... and tables whose value is not canonical under the role table: a collision
+                    # role (X with X-of defined, X not) or an inversion of a collision-free defined role
+                    if any((v + '-of') in roles and v not in roles for v in nd.values()):
+                        continue
                     specs[f'TINY{k}'] = {'roles': {x: {} for x in roles}, 'normalizations': nd, 'reifications': []}
                     k += 1
     return specs
